@@ -298,6 +298,62 @@ def _split_conditions(stmts: list[ast.stmt]) -> list[ast.stmt]:
     return out
 
 
+def _split_tuple_assigns(stmts: list[ast.stmt]) -> list[ast.stmt]:
+    """`a, b = (x, y)` -> `a = x` `b = y` when no target occurs on the right (what `a, b = helper(..)` becomes once the helper's
+    `return x, y` is substituted): the parts can then be followed one by one."""
+    out: list[ast.stmt] = []
+    for st in stmts:
+        for fld in ("body", "orelse", "finalbody"):
+            blk = getattr(st, fld, None)
+            if isinstance(blk, list) and blk and isinstance(blk[0], ast.stmt):
+                setattr(st, fld, _split_tuple_assigns(blk))
+        if isinstance(st, ast.Try):
+            for h in st.handlers:
+                h.body = _split_tuple_assigns(h.body)
+        if isinstance(st, ast.Assign) and len(st.targets) == 1 and isinstance(st.targets[0], (ast.Tuple, ast.List)) and isinstance(st.value, (ast.Tuple, ast.List)):
+            tg, vs = st.targets[0].elts, st.value.elts
+            names = {t.id for t in tg if isinstance(t, ast.Name)}
+            used = {n.id for v_ in vs for n in ast.walk(v_) if isinstance(n, ast.Name)}
+            if len(tg) == len(vs) and all(isinstance(t, ast.Name) for t in tg) and not any(isinstance(v_, ast.Starred) for v_ in vs) and not (names & used) and len(names) == len(tg):
+                for t, v_ in zip(tg, vs):
+                    node = ast.copy_location(ast.Assign(targets=[t], value=v_), st)
+                    if hasattr(st, "_src"):
+                        node._src = st._src  # type: ignore[attr-defined]
+                    out.append(node)
+                continue
+            # `_, b = (x, y)`: a repeated throw-away target
+            if len(tg) == len(vs) and all(isinstance(t, ast.Name) for t in tg) and not any(isinstance(v_, ast.Starred) for v_ in vs) and not (names & used) and all(t.id == "_" for t in tg if [u.id for u in tg].count(t.id) > 1):
+                for t, v_ in zip(tg, vs):
+                    out.append(ast.copy_location(ast.Assign(targets=[t], value=v_), st))
+                continue
+        out.append(st)
+    return out
+
+
+def _project_tuples(fn: ast.AST) -> None:
+    """`t = (x, y)` bound once and only ever read as `t[0]` / `t[1]`: the subscripts are replaced by x / y (`helper(..)[0]` after the
+    helper's `return x, y` was substituted)."""
+    single = _single_assignments(fn)
+    for name, val in single.items():
+        if not (isinstance(val, ast.Tuple) and val.elts and all(isinstance(x, ast.Name) for x in val.elts)):
+            continue
+        loads = [n for n in ast.walk(fn) if isinstance(n, ast.Name) and n.id == name and isinstance(n.ctx, ast.Load)]
+        subs = [n for n in ast.walk(fn) if isinstance(n, ast.Subscript) and isinstance(n.value, ast.Name) and n.value.id == name and isinstance(n.slice, ast.Constant) and isinstance(n.slice.value, int) and -len(val.elts) <= n.slice.value < len(val.elts)]
+        if not subs or len(subs) != len(loads):
+            continue
+        # the parts must not be rebound between the tuple and its uses: they are locals filled before (single binding)
+        if not all(x.id in single or sum(1 for n in ast.walk(fn) if isinstance(n, ast.Name) and n.id == x.id and isinstance(n.ctx, ast.Store)) <= 1 for x in val.elts):
+            continue
+        for par in ast.walk(fn):
+            for fld, v_ in ast.iter_fields(par):
+                if isinstance(v_, ast.AST) and any(v_ is s_ for s_ in subs):
+                    setattr(par, fld, ast.copy_location(ast.Name(id=val.elts[v_.slice.value].id, ctx=ast.Load()), v_))
+                elif isinstance(v_, list):
+                    for i, x in enumerate(v_):
+                        if isinstance(x, ast.AST) and any(x is s_ for s_ in subs):
+                            v_[i] = ast.copy_location(ast.Name(id=val.elts[x.slice.value].id, ctx=ast.Load()), x)
+
+
 def _is_none_test(t: ast.expr) -> str | None:
     """x for `x is None`."""
     if isinstance(t, ast.Compare) and len(t.ops) == 1 and isinstance(t.ops[0], ast.Is) and isinstance(t.left, ast.Name) and isinstance(t.comparators[0], ast.Constant) and t.comparators[0].value is None:
@@ -677,6 +733,8 @@ def search_view(repo: Repo, fi: FuncInfo) -> FuncInfo:
         v0 = v1
     node = v0.node
     _positionalise(node, repo)
+    node.body = _split_tuple_assigns(node.body)
+    _project_tuples(node)
     node.body = _thread_none_exits(node.body)
     _eliminate_aliases(node, set(fi.param_names))
     node.body = _split_conditions(node.body)
@@ -1471,7 +1529,7 @@ def build(repo: Repo, fi: FuncInfo) -> SearchModel | None:
                     src = strip(it_expr)
                     if isinstance(src, ast.Name) and src.id in collectors:
                         feeder = (tgt, src.id)
-                if feeder or isinstance(a, ast.stmt) and not isinstance(a, (ast.For, ast.AsyncFor, ast.If)):
+                if feeder or isinstance(a, (ast.FunctionDef, ast.AsyncFunctionDef, ast.Lambda)):
                     break
             if feeder is None:
                 continue
